@@ -253,6 +253,49 @@ func TestEnumFilterValues(t *testing.T) {
 	suite.Extra("filter_value_matrix_exhaustive_over", fmt.Sprintf("6 comparisons x %d constants x %d element values x {element, member of it} x {element left, right} x {simple, gen}", len(consts), len(values)))
 }
 
+// TestEnumDescentAfter: a descent that starts from several elements at once (after a wildcard,
+// union, slice, filter or another descent) on trees where the matches lie at different depths
+// below different elements.
+func TestEnumDescentAfter(t *testing.T) {
+	m := func(kv ...any) map[string]any {
+		out := map[string]any{}
+		for i := 0; i+1 < len(kv); i += 2 {
+			out[kv[i].(string)] = kv[i+1]
+		}
+		return out
+	}
+	i := func(n int) *int { return &n }
+	k := func(s string) *string { return &s }
+	datas := []any{
+		[]any{m("c", int64(1)), m("b", m("a", int64(5))), m("a", int64(6), "c", m("a", int64(7)))},
+		[]any{m("c", m("c", int64(1))), m("c", int64(2)), m("b", []any{m("a", int64(5))}), []any{m("a", int64(8))}},
+		m("a", m("c", int64(1)), "b", m("b", m("a", int64(5))), "c", []any{m("a", int64(8))}),
+		[]any{[]any{int64(1), int64(2)}, []any{m("a", int64(5))}, m("a", []any{m("a", int64(9))})},
+		[]any{m("c", int64(1)), m("b", []any{int64(3), []any{int64(4), int64(5)}}), []any{[]any{int64(6)}}},
+	}
+	all := &jpx.Eq{Op: "neq", L: &jpx.Eq{Op: "get", P: jpx.Path{{K: "at"}}}, R: &jpx.Eq{Op: "const", CK: "int", CI: 99}}
+	heads := [][]jpx.Frag{
+		{{K: "wild"}}, {{K: "union", U: []jpx.UItem{{Idx: i(0)}, {Idx: i(1)}}}}, {{K: "union", U: []jpx.UItem{{Idx: i(0)}, {Idx: i(1)}, {Idx: i(2)}, {Idx: i(3)}}}},
+		{{K: "union", U: []jpx.UItem{{Key: k("a")}, {Key: k("b")}, {Key: k("c")}}}}, {{K: "slice", S: []int{0, 2}}}, {{K: "slice", S: nil}}, {{K: "slice", S: []int{-1, 0, -1}}},
+		{{K: "filter", F: all}}, {{K: "wild"}, {K: "wild"}}, {{K: "descent"}, {K: "wild"}}, {{K: "nth", N: 1}}, {},
+	}
+	tails := [][]jpx.Frag{{{K: "child", Key: "a"}}, {{K: "nth", N: 0}}, {{K: "nth", N: -1}}, {{K: "wild"}}, {{K: "child", Key: "a"}, {K: "nth", N: 0}}, {{K: "filter", F: all}}, {{K: "union", U: []jpx.UItem{{Key: k("a")}, {Idx: i(1)}}}}, {{K: "slice", S: []int{1}}}}
+	n := 0
+	for _, d := range datas {
+		enc := wx.Enc(d)
+		for _, h := range heads {
+			for _, tail := range tails {
+				for _, gen := range []bool{false, true} {
+					p := append(append(append(jpx.Path{{K: "root"}}, h...), jpx.Frag{K: "descent"}), tail...)
+					vrt.Eval(suite, "get", Case{Path: p, Data: enc, Gen: gen}, Run)
+					n++
+				}
+			}
+		}
+	}
+	suite.AddExtra("descent_after_matrix_cases", int64(n))
+}
+
 func TestPropRandom(t *testing.T) {
 	vrt.Rapid(t, suite, "get", vrt.Scale(40000, 300000), drawCase, Run)
 }
